@@ -880,3 +880,104 @@ def run_b20(chk, repo):
                               witness='a dataset that already has an all-zero RATE column, then set_zero_order_absorption')
     if n == 0:
         raise AnalysisError('B20: dataset copy / RATE rewrite / publication not found in update_infusion')
+
+
+def run_b21_b22(chk, repo):
+    """B21: the TRANS1 rate constants of the peripheral compartments are named K<central><peripheral> for the flow central ->
+    peripheral and K<peripheral><central> for the flow back (PREDPP's numbering: central is 1 for ADVAN3/11, 2 for ADVAN4/12);
+    B22: the columns of the initial individual estimates are written in the model's eta order"""
+    from sa import reach
+    B21 = chk.rule('B21', 'update_needed_pk_parameters: K<i><j> names and the (source, destination) of the flow they are given to '
+                          'agree (central number first for central -> peripheral)', floor=4)
+    um = repo.module(f'{NM}.update')
+    f = um.functions.get('update_needed_pk_parameters')
+    if f is None:
+        raise AnalysisError('update_needed_pk_parameters not found')
+    CENTRAL_NO = {'ADVAN3': '1', 'ADVAN11': '1', 'ADVAN4': '2', 'ADVAN12': '2'}
+    import re as _re
+    n = 0
+
+    def table_of(e):
+        if isinstance(e, ast.Name):
+            # the dict literal assigned to the name (a function may reuse the name for something else in another branch), or
+            # a module-level table
+            vs = [a.value for a in ast.walk(f.node) if isinstance(a, ast.Assign) and isinstance(a.targets[0], ast.Name)
+                  and a.targets[0].id == e.id and isinstance(a.value, ast.Dict)]
+            if len(vs) == 1:
+                return vs[0]
+            return um.globals_.get(e.id)
+        return e
+    for c in calls_in(f.node):
+        if dotted(c.func) != 'add_rate_assignment_if_missing' or len(c.args) < 5:
+            continue
+        name, src, dst = c.args[1], unparse(c.args[3]), unparse(c.args[4])
+        if 'central' not in (src, dst) or not (src.startswith('peripheral') or dst.startswith('peripheral')):
+            continue
+        direction = 'cp' if src == 'central' else 'pc'
+        cands = []          # (advan, name)
+        if isinstance(name, ast.Constant) and isinstance(name.value, str):
+            # the ADVAN of a literal name: from the enclosing `advan == '...'` test
+            adv = None
+            for I in ast.walk(f.node):
+                if isinstance(I, ast.If) and any(x is c for s_ in I.body for x in ast.walk(s_)):
+                    for k in ast.walk(I.test):
+                        if isinstance(k, ast.Constant) and isinstance(k.value, str) and k.value in CENTRAL_NO:
+                            adv = k.value
+            cands.append((adv, name.value))
+        elif isinstance(name, ast.Name):
+            # a loop variable over the rows of a table {ADVAN: [(kcp, kpc), ..]}
+            for L in ast.walk(f.node):
+                if isinstance(L, ast.For) and any(x is c for x in ast.walk(L)):
+                    pos = None
+                    for t in ast.walk(L.target):
+                        if isinstance(t, ast.Tuple) and any(isinstance(e, ast.Name) and e.id == name.id for e in t.elts):
+                            pos = [isinstance(e, ast.Name) and e.id == name.id for e in t.elts].index(True)
+                    tab = next((table_of(s_.value) for s_ in ast.walk(L.iter) if isinstance(s_, ast.Subscript)
+                                and isinstance(table_of(s_.value), ast.Dict)), None)
+                    if pos is None or tab is None:
+                        continue
+                    for k, v in zip(tab.keys, tab.values):
+                        if isinstance(k, ast.Constant) and isinstance(v, (ast.List, ast.Tuple)):
+                            for row in v.elts:
+                                if isinstance(row, ast.Tuple) and pos < len(row.elts) and isinstance(row.elts[pos], ast.Constant):
+                                    cands.append((k.value, row.elts[pos].value))
+        for adv, nm in cands:
+            if adv not in CENTRAL_NO or not _re.fullmatch(r'K\d\d', str(nm)):
+                continue
+            n += 1
+            cen = CENTRAL_NO[adv]
+            ok = (nm[1] == cen and nm[2] != cen) if direction == 'cp' else (nm[2] == cen and nm[1] != cen)
+            chk.instance(B21, f'{adv}: {nm} names the flow {src} -> {dst} (central is compartment {cen}): {ok}')
+            if not ok:
+                chk.violation(B21, um.rel, f.qualname, f'{adv}: {nm} for {src} -> {dst}',
+                              f'PREDPP reads K<i><j> as the rate from compartment i to j; central is compartment {cen} in {adv}',
+                              line=c.lineno,
+                              witness='a TRANS1 model that gets a second peripheral compartment: the generated code is valid but '
+                                      'the two new rate constants are exchanged')
+    if n == 0:
+        raise AnalysisError('B21: no K<i><j> name given to a central/peripheral flow found')
+    B22 = chk.rule('B22', 'the eta columns of the initial individual estimates are ordered by the model\'s random variables (not '
+                          'by name)', floor=1)
+    g = um.functions.get('_sort_eta_columns') or um.functions.get('update_initial_individual_estimates')
+    if g is None:
+        raise AnalysisError('B22: _sort_eta_columns / update_initial_individual_estimates not found')
+    sel = [c.args[0] for c in calls_in(g.node) if isinstance(c.func, ast.Attribute) and c.func.attr == 'reindex' and c.args] + \
+          [k.value for c in calls_in(g.node) if isinstance(c.func, ast.Attribute) and c.func.attr == 'reindex'
+           for k in c.keywords if k.arg == 'columns'] + \
+          [r.value.slice for r in ast.walk(g.node) if isinstance(r, ast.Return) and isinstance(r.value, ast.Subscript)]
+    if not sel:
+        raise AnalysisError('B22: column selection of the individual estimates not found')
+    gcfg = CFG(g.node)
+    for e in sel:
+        at = reach.node_containing(gcfg, e)
+        x = reach.expand_expr(gcfg, at, e) if at is not None else e
+        resorted = any(isinstance(c, ast.Call) and dotted(c.func) == 'sorted' for c in ast.walk(x)) or any(
+            isinstance(c, (ast.ListComp, ast.GeneratorExp)) and 'columns' in unparse(c.generators[0].iter) for c in ast.walk(x))
+        chk.instance(B22, f'{g.name}: columns selected by `{unparse(x)[:60]}` keep the order of the random variables: '
+                          f'{not resorted}')
+        if resorted:
+            chk.violation(B22, um.rel, g.name, unparse(x)[:100],
+                          'the columns are relabelled ETA(1), ETA(2), ... by position afterwards: sorted by name (or taken in file '
+                          'order) they no longer line up with the model\'s eta order', line=e.lineno,
+                          witness='create_joint_distribution([ETA_1, ETA_3]) and initial individual estimates: the ETA(2) column '
+                                  'of the written phi file holds the values of ETA_2 although ETA(2) is ETA_3')
